@@ -190,4 +190,14 @@ CHECKS = {
             {"test": "TestC14_Concurrent", "race": True, "quick": {"checks": 200, "timeout": "15m"}, "thorough": {"checks": 2000, "shards": 2, "timeout": "60m"}},
         ],
     },
+    "C10": {
+        "level": "exploration",
+        "assumptions": EXPLORATION_ASSUMPTIONS + ["virtual-clock leg: compiled into goirc's client package through go test -overlay (nothing is written to /repo); it reads rateLimit/badness/lastsent, which goirc's own TestRateLimit pins; if it stops compiling the leg is reported as skipped",
+                                                  "wire leg: write timestamps are taken inside the scripted socket's Write on the client's send goroutine; lower bounds on delay are load-proof (a sleep can only be longer), the 'not delayed' direction allows 1.5 s of scheduling slack (the smallest possible hold-back is 2 s)"],
+        "legs": [
+            {"test": "TestVerifC10", "inpkg": "c10_ratelimit_test.go", "quick": {"checks": 20000, "timeout": "15m"}, "thorough": {"checks": 200000, "shards": 8, "timeout": "60m"}},
+            {"test": "TestC10_Wire", "quick": {"checks": 1, "timeout": "20m", "shrinktime": "1s", "env": {"VERIF_C10_BATCH": 12, "VERIF_C10_MAXLINES": 6}},
+             "thorough": {"checks": 2, "shards": 3, "timeout": "60m", "shrinktime": "1s", "env": {"VERIF_C10_BATCH": 48, "VERIF_C10_MAXLINES": 12}}},
+        ],
+    },
 }
